@@ -131,6 +131,35 @@ func c02(r *core.Run) {
 		}
 	}
 	r.Floor("R3.census", 6)
+
+	// R5 dictionary literals: the duplicate-key resource-loss guard is decided by the resource-kindedness of the
+	// dictionary itself (an overwritten entry is lost whatever the kind of the *new* value, e.g. nil)
+	if fn := mustFn(r, "R5.dupkey", "interpreter", "", "NewDictionaryValueWithAddress"); fn != nil {
+		n := 0
+		for _, ps := range core.Panics(fn, true) {
+			if _, tn := core.TypeName(ps.Type); tn != "DuplicateKeyInResourceDictionaryError" {
+				continue
+			}
+			n++
+			ok := false
+			for _, a := range core.ControllingConds(ps.Instr) {
+				c, isCall := core.Origin(a.Var.Call).(*ssa.Call)
+				if !isCall || !a.Val {
+					continue
+				}
+				if o := core.Callee(c); o != nil && o.Name() == "IsResourceKinded" && core.RecvName(o) == "DictionaryValue" {
+					ok = true
+				}
+			}
+			r.Check(ok, "R5.dupkey", "interpreter.NewDictionaryValueWithAddress: DuplicateKeyInResourceDictionaryError guard", ps.Instr.Pos(),
+				"raised exactly when the dictionary (receiver *DictionaryValue) is resource-kinded and an entry was overwritten",
+				"the duplicate-key guard is not controlled by (*DictionaryValue).IsResourceKinded: an overwritten resource entry can be dropped silently")
+		}
+		if n == 0 {
+			r.Bad("R5.dupkey", "interpreter.NewDictionaryValueWithAddress: DuplicateKeyInResourceDictionaryError guard", fn.Pos(), "the duplicate-key resource-loss guard was removed")
+		}
+	}
+	r.Floor("R5.dupkey", 1)
 }
 
 func c04(r *core.Run) {
